@@ -20,6 +20,7 @@ TRet == /\ IsEv("ret")
              [] c = "overflow" -> RetOverflow
              [] c = "ser_err" -> RetRefused
              [] c = "io_err" -> RetIoErr
+             [] c = "cancelled" -> RetCancelled
              [] OTHER -> FALSE
 \* a failed transport write: the operation must report it
 TWriteErr == IsEv("write_err") /\ cur.kind \in {"send", "flush"} /\ UNCHANGED ovars
